@@ -30,7 +30,7 @@ EXTENDS ClusterAPI
 Members(w)        == Range(w.peers)
 IsFollower(w, p)  == p \in Range(w.followers)
 EnvAt(w, p) == [follower |-> IsFollower(w, p), dmin |-> 0 - 1, dmax |-> 0 - 1, strat |-> w.strat, ms |-> w.ms,
-                paths |-> <<>>, blocks |-> w.blocks, fail |-> <<>>, logfail |-> <<>>]
+                paths |-> <<>>, blocks |-> w.blocks, fail |-> <<>>, logfail |-> <<>>, deferred |-> FALSE]
 
 Pos(s, x) == CHOOSE i \in DOMAIN s : s[i] = x
 \* distances(exclude) + isClosest: p against the trusted members other than itself and `exclude`
